@@ -107,11 +107,20 @@ package query
 // View (its fields, its record / cell slices, its sort keys) nor an existing SortValue. The value it
 // returned last is kept in a ghost variable so that callers' postconditions can refer to it.
 //@ ghost var lastEval value.Primary
+//@ ghost var evalEpoch int
+//@ spec func evalOf(scope *ReferenceScope, expr parser.QueryExpression, epoch int) value.Primary
+//@ spec func evalFails(scope *ReferenceScope, expr parser.QueryExpression, epoch int) bool
 //@ func Evaluate
-//@   trusted assumed frame of expression evaluation (no write to View / Record / Cell / SortValue storage)
-//@   ensures result0 == lastEval
+//@   trusted assumed frame of expression evaluation (no write to View / Record / Cell / SortValue storage); each call yields a value named by (scope, expression, call epoch)
+//@   ensures result0 == lastEval && result0 == evalOf(scope, expr, old(evalEpoch))
+//@   ensures (result1 != nil) == evalFails(scope, expr, old(evalEpoch))
+//@   ensures evalEpoch == old(evalEpoch) + 1
 //@   ensures result1 == nil ==> result0 != nil
-//@   modifies * except F:query.View. E:query.Record# E:query.Cell# E:value.Primary# E:*query.SortValue# E:query.SortValues# F:query.SortValue. E:int# F:parser.
+//@   modifies * except F:query.View. E:query.Record# E:query.Cell# E:value.Primary# E:*query.SortValue# E:query.SortValues# F:query.SortValue. E:int# F:parser. F:value. F:query.ReferenceScope. F:query.Transaction. F:option.Flags.
+//@ func EvalRowValue
+//@   trusted assumed frame of expression evaluation
+//@   ensures evalEpoch > old(evalEpoch)
+//@   modifies * except F:query.View. E:query.Record# E:query.Cell# E:*query.SortValue# E:query.SortValues# F:query.SortValue. E:int# F:parser. F:value. F:query.ReferenceScope. F:query.Transaction. F:option.Flags.
 
 // ---------------------------------------------------------------------------------------------
 // C07: OFFSET / LIMIT / sort keys
@@ -380,3 +389,48 @@ package query
 //@ lemma sv_equiv_is_tie: forallv(a, *SortValue, forallv(b, *SortValue, svClassOk(a) && svClassOk(b) && sameClass(a, b) &&
 //@     (a.Type == b.Type) ==> (svEq(a, b) <==> svLess(a, b) == ternary.UNKNOWN)))
 //@   property C07
+
+// ---------------------------------------------------------------------------------------------
+// C06: BETWEEN, logic connectives and IS equal their documented expansions (Kleene logic)
+//@ spec def kAnd(a ternary.Value, b ternary.Value) ternary.Value = ite(a == ternary.FALSE || b == ternary.FALSE, ternary.FALSE, ite(a == ternary.TRUE && b == ternary.TRUE, ternary.TRUE, ternary.UNKNOWN))
+//@ spec def kOr(a ternary.Value, b ternary.Value) ternary.Value = ite(a == ternary.TRUE || b == ternary.TRUE, ternary.TRUE, ite(a == ternary.FALSE && b == ternary.FALSE, ternary.FALSE, ternary.UNKNOWN))
+//@ spec def kNot(a ternary.Value) ternary.Value = ite(a == ternary.TRUE, ternary.FALSE, ite(a == ternary.FALSE, ternary.TRUE, ternary.UNKNOWN))
+//@ spec def isRowExpr(e parser.QueryExpression) bool = is(e, parser.Subquery) || is(e, parser.JsonQuery) || is(e, parser.ValueList) || is(e, parser.RowValue)
+//@ spec def flagsOf(scope *ReferenceScope) *option.Flags = scope.Tx.Flags
+//@ spec def ternaryResult(p value.Primary, t ternary.Value) bool = is(p, *value.Ternary) && as(p, *value.Ternary).value == t
+
+//@ func evalBetween
+//@   property C06
+//@   requires scope != nil && scope.Tx != nil && scope.Tx.Flags != nil
+//@   ensures [expansion] !isRowExpr(expr.LHS) && result1 == nil ==>
+//@     ternaryResult(result0, ite(expr.IsNegated(),
+//@       kNot(ite(value.opGe(value.cmpOf(evalOf(scope, expr.LHS, old(evalEpoch)), evalOf(scope, expr.Low, old(evalEpoch) + 1), flagsOf(scope).DatetimeFormat, flagsOf(scope).GetTimeLocation())) == ternary.FALSE, ternary.FALSE,
+//@            kAnd(value.opGe(value.cmpOf(evalOf(scope, expr.LHS, old(evalEpoch)), evalOf(scope, expr.Low, old(evalEpoch) + 1), flagsOf(scope).DatetimeFormat, flagsOf(scope).GetTimeLocation())),
+//@                 value.opLe(value.cmpOf(evalOf(scope, expr.LHS, old(evalEpoch)), evalOf(scope, expr.High, old(evalEpoch) + 2), flagsOf(scope).DatetimeFormat, flagsOf(scope).GetTimeLocation()))))),
+//@       ite(value.opGe(value.cmpOf(evalOf(scope, expr.LHS, old(evalEpoch)), evalOf(scope, expr.Low, old(evalEpoch) + 1), flagsOf(scope).DatetimeFormat, flagsOf(scope).GetTimeLocation())) == ternary.FALSE, ternary.FALSE,
+//@            kAnd(value.opGe(value.cmpOf(evalOf(scope, expr.LHS, old(evalEpoch)), evalOf(scope, expr.Low, old(evalEpoch) + 1), flagsOf(scope).DatetimeFormat, flagsOf(scope).GetTimeLocation())),
+//@                 value.opLe(value.cmpOf(evalOf(scope, expr.LHS, old(evalEpoch)), evalOf(scope, expr.High, old(evalEpoch) + 2), flagsOf(scope).DatetimeFormat, flagsOf(scope).GetTimeLocation()))))))
+//@   modifies *
+
+//@ func evalLogic
+//@   property C06
+//@   ensures [kleene-and] result1 == nil && expr.Operator.Token == parser.AND ==>
+//@       ternaryResult(result0, ite(value.ternOf(evalOf(scope, expr.LHS, old(evalEpoch))) == ternary.FALSE, ternary.FALSE,
+//@           kAnd(value.ternOf(evalOf(scope, expr.LHS, old(evalEpoch))), value.ternOf(evalOf(scope, expr.RHS, old(evalEpoch) + 1)))))
+//@   ensures [kleene-or] result1 == nil && expr.Operator.Token == parser.OR ==>
+//@       ternaryResult(result0, ite(value.ternOf(evalOf(scope, expr.LHS, old(evalEpoch))) == ternary.TRUE, ternary.TRUE,
+//@           kOr(value.ternOf(evalOf(scope, expr.LHS, old(evalEpoch))), value.ternOf(evalOf(scope, expr.RHS, old(evalEpoch) + 1)))))
+//@   modifies *
+
+//@ func evalUnaryLogic
+//@   property C06
+//@   ensures [kleene-not] result1 == nil && (expr.Operator.Token == parser.NOT || expr.Operator.Token == '!') ==>
+//@       ternaryResult(result0, kNot(value.ternOf(evalOf(scope, expr.Operand, old(evalEpoch)))))
+//@   modifies *
+
+//@ func Is
+//@   property C06
+//@   requires p1 != nil && p2 != nil
+//@   ensures [is-null] p2 == value.null ==> result == value.tbool(p1 == value.null)
+//@   ensures [is-truth-value] p2 != value.null ==> result == value.tbool(value.ternOf(p1) == value.ternOf(p2))
+//@   modifies nothing
